@@ -225,6 +225,61 @@ func c18Core(c *Ctx, p *core.Prog, an *effects.Analysis, main bool) {
 			r.Check(!s.WritesThrough(k), "C18-INPUT", core.FuncName(fn)+"/input-not-written", p.Pos(fn.Pos()),
 				"write set w.r.t. the []byte parameter is empty; "+al, "may write through its input slice: "+bad)
 		}
+		// ---- C18-RETAIN: which decoders leave their receiver referring to the caller's buffer
+		r.Floor("C18-RETAIN", 24)
+		for _, spec := range DecoderRoots() {
+			fn := p.Func(spec)
+			if fn == nil {
+				continue
+			}
+			r.Anchor("C18-RETAIN", spec)
+			s := an.Sum[fn]
+			k := len(fn.Params) - 1
+			name := core.FuncName(fn)
+			allowed := retainByDesign[name]
+			if k == 0 { // plain function (rtcp.Unmarshal): no receiver; its results are allowed to alias the input
+				r.Check(true, "C18-RETAIN", name+"/no-receiver", p.Pos(fn.Pos()), "no receiver; the returned packets may alias the input only through the per-type decoders checked here", "")
+				continue
+			}
+			var got []string
+			seen := map[string]bool{}
+			for _, st := range s.RetainSites[[2]int{0, k}] {
+				f := st.Path
+				if f == "" {
+					f = "*"
+				}
+				if !seen[f] {
+					seen[f] = true
+					got = append(got, f)
+				}
+			}
+			sort.Strings(got)
+			var extra []string
+			for _, g := range got {
+				if !allowed[g] {
+					extra = append(extra, g)
+				}
+			}
+			okd := "after the call no memory of the receiver refers to the input slice: the decoded value owns its data"
+			if len(got) > 0 {
+				okd = "the receiver refers to the input slice only through the documented field(s) " + strings.Join(got, ", ")
+			}
+			bad := ""
+			if len(extra) > 0 {
+				for _, st := range s.RetainSites[[2]int{0, k}] {
+					f := st.Path
+					if f == "" {
+						f = "*"
+					}
+					if f == extra[0] {
+						bad = siteStr(p, st)
+						break
+					}
+				}
+			}
+			r.Check(len(extra) == 0, "C18-RETAIN", name+"/receiver-owns-its-data", p.Pos(fn.Pos()), okd,
+				"the decoded value keeps a reference into the caller's buffer through "+strings.Join(extra, ", ")+" (not one of the documented aliasing fields), so reusing the buffer changes the packet: "+bad)
+		}
 		// ---- C18-FRESH
 		r.Floor("C18-FRESH", 16)
 		for _, t := range core.PacketTypes {
@@ -317,4 +372,13 @@ func reflectCallIsStringOnly(p *core.Prog) bool {
 	}
 	_ = types.Typ
 	return found
+}
+
+// retainByDesign: the fields through which a decoded value is documented to alias the caller's buffer
+// (property C18, mechanism "decoders only read from the input slice (results may alias it)").
+var retainByDesign = map[string]map[string]bool{
+	"(*RawPacket).Unmarshal":          {"*": true},                 // raw_packet.go: *r = rawPacket, the packet IS the buffer
+	"(*SenderReport).Unmarshal":       {"ProfileExtensions": true}, // documented: the tail of the buffer
+	"(*ReceiverReport).Unmarshal":     {"ProfileExtensions": true},
+	"(*ApplicationDefined).Unmarshal": {"Data": true},
 }
